@@ -1068,6 +1068,8 @@ namespace Pistache::Http
         }
 
         OUT(writeHeaders(writer.headers(), *buf));
+        // cookies set on the writer belong to the response, as in send()
+        OUT(writeCookies(writer.cookies(), *buf));
 
         const size_t len = sb.st_size;
 
